@@ -1,6 +1,5 @@
 // Specs, pre-state builders and contract harnesses for src/cc.rs (child module => private items
 // such as CcBox::new, Cc.inner, CcBox.metadata are visible).
-#![allow(dead_code, unused_imports, unused_variables)]
 use super::*;
 use crate::counter_marker::verif_proofs as cmp;
 use crate::lists::verif_proofs as lp;
